@@ -97,7 +97,7 @@ def run_e2e(ctx, n, tag):
     failures = []
     nontriv = 0
     for (k, body, row, kind, cname, must, must_not, nt), (rc, so, se) in zip(jobs, common.pmap(one, jobs)):
-        if rc != 0 or so.strip().endswith("timeout"):
+        if rc != 0 or "timeout" in so.split("\n"):
             continue
         if nt:
             nontriv += 1
